@@ -132,6 +132,12 @@ pub fn gen_tape(family: u8, seed: u64, len: usize, flt: Flt, positive: bool, sca
     let big = scale * 10f64.powf(2.0 + 4.0 * r.unit());
     let walk_step = scale * 1e-3;
     let tiny_ratio = 10f64.powf(-3.0 - 17.0 * r.unit());
+    // the same relative to what this tape can resolve: an increment of u * 10^-k, k uniform in
+    // [0, log10(len) + 1], is individually invisible in the running sum while len of them together
+    // weigh between len*u and u/10 (half of the family-12 tapes use this ratio)
+    let u_flt = if flt == Flt::F32 { 2f64.powi(-24) } else { 2f64.powi(-53) };
+    let sub_resolution_ratio = u_flt * 10f64.powf(-r.unit() * ((len.max(1) as f64).log10() + 1.0));
+    let vanishing_ratio = if r.chance(0.5) { sub_resolution_ratio } else { tiny_ratio };
     let mut pending: Option<f64> = None;
     let mut special_prev = false;
     for i in 0..len {
@@ -194,7 +200,7 @@ pub fn gen_tape(family: u8, seed: u64, len: usize, flt: Flt, positive: bool, sca
                 if i == 0 {
                     big
                 } else {
-                    big * tiny_ratio
+                    big * vanishing_ratio
                 }
             }
             15 => {
